@@ -56,4 +56,4 @@ LEVEL_TEXT = ('Bounded symbolic verification by self-composition: the real setup
               '"for every history" is covered by one step from an arbitrary leftover state instead of enumerating histories. A second setup() on a used object (other grid size, extrapolation, strategy, boundary mode) is compared with a fresh object: number of levels, level grids, solution, iteration count.')
 LEVEL_NOTE = '9x8/5x4 hierarchy, <= 2 iterations; leftover state over-approximates real histories (counterexamples are confirmed by native replay from that state); exact arithmetic'
 TECHNIQUE = 'symbolic execution of LLVM IR (llsym), self-composition of two solver states with path forking + SMT (z3 QF_NRA / cvc5 QF_LRA)'
-DESIGN_REF = 'DESIGN.md section 6/C13'
+DESIGN_REF = 'DESIGN.md section 0 (status as built: 0.2, 0.5, 0.6) and section 6/C13 (design)'
